@@ -1,24 +1,24 @@
----- MODULE MC_C11_thorough_C_shape_n5 ----
+---- MODULE MC_C11_thorough_S_shape_sweep ----
 EXTENDS C11
 MC_DomH1 == {3}
-MC_DomH2 == {3}
+MC_DomH2 == {5}
 MC_DomH3 == {4}
 MC_DomH4 == {7}
 MC_DomH5 == {9}
 MC_DomHDKG == {1}
 MC_DomHR == {1}
 MC_DomHID == {1}
-MC_Shapes == {<<5,3>>, <<5,4>>}
-MC_IdSets == {{1,2,3,4,5}, {1,3,6,8,10}}
+MC_Shapes == {sh \in (3..12) \X (2..12) : sh[2] < sh[1]}
+MC_IdSets == {1..n : n \in 3..12}
 MC_KeyChoices == {7}
 MC_CoeffChoices == {3}
 MC_DeltaChoices == {4}
-MC_NewIds == {9}
-MC_Scenarios == {"ok","bad"}
-MC_MaxExtraH == 2
+MC_NewIds == {}
+MC_Scenarios == {"ok"}
+MC_MaxExtraH == 12
 MC_RandChoices == {1}
 MC_Msg == <<104,105>>
-MC_Sweep == FALSE
+MC_Sweep == TRUE
 MC_EMIT == TRUE
 
 ====
